@@ -135,7 +135,8 @@ def run_case(case):
                 if op.get("as") == "fsarray":
                     bw = max([len(c) for c in block_cells], default=0)
                     # (declared width: the longest row, or more - an FSArray's rows are not padded to it, they keep their length)
-                    block, e = call(lambda: fsarray([v for v, _ in vals], bw + op.get("declared_extra", 0)))
+                    declared = max(bw, c1 - c0) if op.get("declared_region") else bw + op.get("declared_extra", 0)
+                    block, e = call(lambda: fsarray([v for v, _ in vals], declared))
                     if e is not None:
                         continue
                     # an FSArray block's rows are not padded: rows keep their own length
@@ -348,11 +349,16 @@ def history(draw):
             rw = c1 - c0
             nrows = r1 - r0 if draw(st.integers(0, 7)) else draw(st.integers(0, 4))
             block = []
+            ragged = draw(st.integers(0, 3)) == 0  # rows no longer than the region, some shorter: the plain legal case
             for _ in range(nrows):
-                ln = draw(st.sampled_from([rw, rw, rw, max(rw - 1, 0), 0, rw + 1, rw + 2, max(rw - 2, 0)]))
+                ln = draw(st.sampled_from([rw, rw, rw, max(rw - 1, 0), 0, rw + 1, rw + 2, max(rw - 2, 0)] if not ragged else [rw, max(rw - 1, 0), max(rw - 2, 0), 0]))
                 block.append(draw(rowspec(ln)))
-            ops.append({"op": "set", "r0": r0, "r1": r1, "c0": c0, "c1": c1, "block": block, "as": draw(st.sampled_from(["list", "list", "fsarray", "tuple"])),
-                        "declared_extra": draw(st.sampled_from([0, 0, 1, 2, 5])), "rows_only": draw(st.booleans())})
+            if ragged and w > 0 and r1 > r0:
+                # ... onto rows that are filled to the right edge, so that what lies right of the region is visible
+                ops.append({"op": "set", "r0": r0, "r1": r1, "c0": 0, "c1": w, "block": [{"str": "f" * w}] * (r1 - r0), "as": "list"})
+            ops.append({"op": "set", "r0": r0, "r1": r1, "c0": c0, "c1": c1, "block": block,
+                        "as": draw(st.sampled_from(["list", "list", "fsarray", "tuple"] if not ragged else ["fsarray", "fsarray", "list", "tuple"])),
+                        "declared_extra": draw(st.sampled_from([0, 0, 1, 2, 5])), "declared_region": draw(st.booleans()), "rows_only": draw(st.booleans())})
             h = max(h, r1)
         elif k == 6:
             r, c = draw(st.integers(0, h + 2)), draw(st.integers(0, max(w - 1, 0)))
